@@ -2,7 +2,7 @@
 Concrete graphs, schedules and the traces the model produces for them: the witnesses used by the
 non-vacuity `example`s of `Props/C14.lean` and `Props/C16.lean` (evaluated by the kernel, `decide`).
 -/
-import Goat.Proofs.PipelineTerm
+import Goat.Proofs.PipelineTry
 import Goat.Proofs.PipelineLatch
 
 namespace Goat.Pipeline
@@ -32,6 +32,12 @@ def gEx16 : Graph :=
     ⟨.hfail 0, 1, 0, [], [.probe]⟩, ⟨.hfin 0, 1, 0, [], [.probe]⟩, ⟨.hsucc 0, 1, 0, [], [.probe]⟩],
    [⟨0, 1, 1, some 4, some 2, some 3⟩], [0]⟩
 
+/-- the same graph with a FAILING fail handler (task 2: `f`) -/
+def gEx16f : Graph :=
+  ⟨[⟨.top, 0, 0, [], [.probe, .try_ 0, .probe]⟩, ⟨.tbody 0, 1, 1, [], [.probe, .fail]⟩,
+    ⟨.hfail 0, 1, 0, [], [.fail]⟩, ⟨.hfin 0, 1, 0, [], [.probe]⟩, ⟨.hsucc 0, 1, 0, [], [.probe]⟩],
+   [⟨0, 1, 1, some 4, some 2, some 3⟩], [0]⟩
+
 def schedEx16 : List Label :=
   rep 2 .main ++ rep 6 (.task 0) ++ rep 7 (.task 1) ++ rep 4 (.tryg 0) ++ rep 6 (.task 3) ++ rep 6 (.task 2) ++
   rep 6 (.task 0) ++ rep 8 .main
@@ -43,6 +49,27 @@ theorem gEx16_trace : (run gEx16 schedEx16).tr =
     [.sub 0, .acc 0, .cmd 0 0, .ret 0 0 true, .cmd 0 1, .ret 0 1 true, .cmd 1 0, .ret 1 0 true,
      .cmd 1 1, .ret 1 1 false, .done 1 false, .hacc 3, .hacc 2, .cmd 3 0, .ret 3 0 true, .done 3 true,
      .cmd 2 0, .ret 2 0 true, .done 2 true, .cmd 0 2, .ret 0 2 true, .done 0 true,
+     .mwait false, .fin 0 true, .fin 1 false, .fin 2 true, .fin 3 true, .root true] := by decide
+
+/-! steering of `gEx16`: the fail handler (task 2) is held in its first command until the finally
+handler (task 3) has started -/
+
+def polSel : Nat → Steer := fun _ => .holdSel false
+def polFin : Nat → Steer := fun _ => .holdFin true
+
+/-- up to the moment the fail handler sits in its first command -/
+def schedHeld : List Label :=
+  rep 2 .main ++ rep 6 (.task 0) ++ rep 7 (.task 1) ++ rep 4 (.tryg 0) ++ rep 2 (.task 2)
+
+/-- … then the held handler is scheduled five times in vain, `finally` runs, the fail handler continues -/
+def schedSteered : List Label :=
+  schedHeld ++ rep 5 (.task 2) ++ rep 6 (.task 3) ++ rep 6 (.task 2) ++ rep 6 (.task 0) ++ rep 8 .main
+
+set_option maxRecDepth 8000 in
+theorem gEx16_steered_trace : ((sysS gEx16 polSel).run schedSteered).tr =
+    [.sub 0, .acc 0, .cmd 0 0, .ret 0 0 true, .cmd 0 1, .ret 0 1 true, .cmd 1 0, .ret 1 0 true,
+     .cmd 1 1, .ret 1 1 false, .done 1 false, .hacc 3, .hacc 2, .cmd 2 0, .cmd 3 0, .ret 3 0 true, .done 3 true,
+     .ret 2 0 true, .done 2 true, .cmd 0 2, .ret 0 2 true, .done 0 true,
      .mwait false, .fin 0 true, .fin 1 false, .fin 2 true, .fin 3 true, .root true] := by decide
 
 theorem gLatch_wf : wf gLatch = true := by decide
